@@ -203,6 +203,12 @@ def step (s : State) (args : List String) : State × String :=
     | .none => (s, "none")
     | .fail => (s, "fail")
     | .paid each to => (s, s!"paid EACH={renderCoins each} TO={renderItems "," to}")
+  | ["setadmin", c, a] =>
+    -- wasm MsgUpdateAdmin / MsgClearAdmin by the current admin: the contract info changes, the registry does not
+    let s' := match AList.find? s.contracts c with
+      | some info => { s with contracts := AList.set s.contracts c { info with admin := tok a } }
+      | none => s
+    (s', "ok REG=" ++ renderReg s')
   | ["register", c, snd, w] => fin (register s c snd (tok w))
   | ["update", c, snd, w] => fin (update s c snd (tok w))
   | ["cancel", c, snd] => fin (cancel s c snd)
